@@ -72,7 +72,7 @@ def us_std_atm_pressure_from_altitude(z):
     """
     (1976) US Standard Atmosphere. Derived from Pressure from altitude equation.
     """
-    z = np.asarray(z)
+    z = np.asarray(z, dtype=np.float64)
     x = z < np.inf
     h = np.empty_like(z)
     h[x] = z[x] * const.earth_radius / (z[x] + const.earth_radius)
